@@ -101,3 +101,24 @@ Check C08_rgb_spellings : forall (r g b : list N) p, PInv p -> numeral r -> nume
 Print Assumptions C08_rgb_spellings.
 
 Local Close Scope N_scope.
+
+From Avt Require Import Proofs.Audit2Misc.
+(** Proofs/Audit2Misc.v (second statement audit) *)
+(** no other function changes the pen: DECRST of any list without 1048 / 1049 (origin, auto-wrap, the screen switches ...) leaves it alone *)
+Theorem C08_decrst_keeps_pen : forall t ms t', TInv t -> no_save_modes ms = true -> execute t (Decrst ms) = Ok t' -> tpen t' = tpen t.
+Proof. exact C08_decrst_pen. Qed.
+Check C08_decrst_keeps_pen : forall t ms t', TInv t -> no_save_modes ms = true -> execute t (Decrst ms) = Ok t' -> tpen t' = tpen t.
+Print Assumptions C08_decrst_keeps_pen.
+
+(** DECSET never changes the pen (1048h / 1049h only SAVE it) *)
+Theorem C08_decset_keeps_pen : forall t ms t', execute t (Decset ms) = Ok t' -> tpen t' = tpen t.
+Proof. exact C08_decset_pen. Qed.
+Check C08_decset_keeps_pen : forall t ms t', execute t (Decset ms) = Ok t' -> tpen t' = tpen t.
+Print Assumptions C08_decset_keeps_pen.
+
+(** XTWINOPS (CSI 8 ; r ; c t) is a no-op on every reachable state *)
+Theorem C08_xtwinops : forall t op t', TInv t -> execute t (Xtwinops op) = Ok t' -> t' = t.
+Proof. exact C08_xtwinops_noop. Qed.
+Check C08_xtwinops : forall t op t', TInv t -> execute t (Xtwinops op) = Ok t' -> t' = t.
+Print Assumptions C08_xtwinops.
+
